@@ -344,7 +344,9 @@ int sqfs_dir_reader_resolve_path(sqfs_dir_reader_t *rd, const char *path,
 			if (ret > 0)
 				return SQFS_ERROR_NO_ENTRY;
 
-			len = ent->size + 1;
+			/* the stored name may contain a null byte: compare (and
+			   then index path) only up to the end of the C string */
+			len = strlen((const char *)ent->name);
 			ret = strncmp((const char *)ent->name, path, len);
 			sqfs_free(ent);
 
